@@ -259,15 +259,31 @@ class ReachingDefs:
         return T(at, depth).visit(copy.deepcopy(e))
 
     # -------------------------------------------------------------- slices
-    def slice(self, exprs: Iterable[ast.AST], at: Node, max_nodes: int = 4000) -> "Slice":
+    def slice(self, exprs: Iterable[ast.AST], at: Node, max_nodes: int = 4000, control: bool = False) -> "Slice":
         """Backward data slice: every definition (transitively) feeding the
-        given expressions evaluated at node `at`."""
+        given expressions evaluated at node `at`.  With control=True the tests
+        of the branches dominating each included node are followed as well."""
         sl = Slice()
         work: List[Tuple[ast.AST, Node]] = [(e, at) for e in exprs]
         seen_defs: Set[int] = set()
+        seen_ctrl: Set[int] = set()
+
+        def add_ctrl(n: Node):
+            if not control or n.id in seen_ctrl:
+                return
+            seen_ctrl.add(n.id)
+            for test, pol, b in self.cfg.guards(n):
+                cn = b.pred[0][0] if b.pred else b
+                if id(test) not in seen_ctrl:
+                    seen_ctrl.add(id(test))
+                    sl.ctrl.append((test, pol, cn))
+                    work.append((test, cn))
+
+        add_ctrl(at)
         while work and len(sl.exprs) < max_nodes:
             e, n = work.pop()
             sl.exprs.append((e, n))
+            add_ctrl(n)
             bound = _comp_bound(e)
             for x in walk_no_defs(e):
                 if isinstance(x, ast.Name) and isinstance(x.ctx, ast.Load):
@@ -311,6 +327,7 @@ def _comp_bound(e: ast.AST) -> Set[str]:
 
 class Slice:
     def __init__(self):
+        self.ctrl: List[Tuple[ast.AST, bool, Node]] = []
         self.exprs: List[Tuple[ast.AST, Node]] = []
         self.defs: List[Def] = []
         self.params: Set[str] = set()
